@@ -794,6 +794,8 @@ fn history(family: &str, seed: u64, idx: usize, thorough: bool, out: &mut impl W
                 }
                 c.s.trace.push(json!({"ev":"phase","writer":writer,"h":h,"ty":ty.name(),"nan":nan}));
                 let mut last_v: Option<CVal> = None;
+                // other entities written by one other peer each while this phase lasts
+                let mut side_writer: std::collections::BTreeMap<u32, u32> = Default::default();
                 for k in 0..nwrites {
                     // sometimes the application re-writes the value it wrote last (touching it through DerefMut),
                     // sometimes a peer returns to the value it wrote the last time it was the writer of this key
@@ -813,6 +815,23 @@ fn history(family: &str, seed: u64, idx: usize, thorough: bool, out: &mut impl W
                         let p = c.any_peer();
                         let h2 = c.fresh();
                         c.s.spawn(p, h2, true, &[], None);
+                    }
+                    // ... and, now and then, another peer writes the same kind of component on another entity (its only writer in
+                    // this phase): pushes from the network and local writes of one type meet in one frame of a peer
+                    if c.rng.chance(1, 3) && c.live.len() >= 2 {
+                        let others: Vec<u32> = c.live.iter().cloned().filter(|x| *x != h).collect();
+                        let h2 = *c.rng.pick(&others);
+                        let p2 = match side_writer.get(&h2) {
+                            Some(p) => *p,
+                            None => {
+                                let p = c.any_peer();
+                                side_writer.insert(h2, p);
+                                p
+                            }
+                        };
+                        let v2 = small_val(&mut c.rng, ty);
+                        c.s.trace.push(json!({"ev":"side_write","peer":p2,"h":h2,"ty":ty.name()}));
+                        c.s.write(p2, h2, &v2, &[]);
                     }
                     match c.rng.below(4) {
                         0 => {
@@ -1075,6 +1094,33 @@ fn history(family: &str, seed: u64, idx: usize, thorough: bool, out: &mut impl W
                             e.3 = true;
                         }
                     }
+                }
+            }
+            // one history in six: put back — a peer publishes, another peer overwrites once that has settled, the first peer
+            // publishes its old content again, byte for byte (an undo, a toggle between two states)
+            if idx % 6 == 4 && c.nclients >= 1 {
+                let d = c.drain(80);
+                c.s.trace.push(json!({"ev":"drain","quiescent":d.0,"rounds":d.1}));
+                for _ in 0..c.rng.range(1, 2) {
+                    let kind = *c.rng.pick(&AK);
+                    let id = uuid::Uuid::from_bytes(c.rng.bytes(16).try_into().unwrap());
+                    let p1 = c.any_peer();
+                    let mut p2 = c.any_peer();
+                    while p2 == p1 {
+                        p2 = c.any_peer();
+                    }
+                    let (n1, n2) = (6000 + c.rng.below(500) as u64, 7000 + c.rng.below(500) as u64);
+                    c.s.asset_insert(p1, kind, Some(id), n1);
+                    let d = c.drain(80);
+                    c.s.trace.push(json!({"ev":"drain","quiescent":d.0,"rounds":d.1}));
+                    c.s.trace.push(json!({"ev":"overwrite","peer":p2,"prev":p1}));
+                    c.s.asset_insert(p2, kind, Some(id), n2);
+                    let d = c.drain(80);
+                    c.s.trace.push(json!({"ev":"drain","quiescent":d.0,"rounds":d.1}));
+                    c.s.trace.push(json!({"ev":"overwrite","peer":p1,"prev":p2,"put_back":true}));
+                    c.s.asset_insert(p1, kind, Some(id), n1);
+                    let d = c.drain(80);
+                    c.s.trace.push(json!({"ev":"drain","quiescent":d.0,"rounds":d.1}));
                 }
             }
             // one history in six: a large body is overwritten by a small one while its download is still running on the
@@ -1407,22 +1453,46 @@ fn history(family: &str, seed: u64, idx: usize, thorough: bool, out: &mut impl W
             }
             // the rig starts to be used: the joints gain a component after the skinned entity exists, which moves them to an
             // archetype younger than the skinned entity's (the snapshot then lists the skinned entity before its joints)
-            if !joints.is_empty() && c.rng.chance(1, 2) {
+            // one history in six: a populated scene comes to exist in between (entities of a kind not seen before in this history:
+            // their archetype is younger than the skinned entity's and older than the one the joints move to), so that in the
+            // snapshot the skinned entity and its joints are more than one frame's worth of bytes apart
+            let far = idx % 6 == 2 && !joints.is_empty();
+            if far {
+                // the skeleton as it is when the scene gets populated: every joint, in order
+                let v = CVal::new(Ty::Skinned, 9_900);
+                c.s.trace.push(json!({"ev":"phase","writer":origin,"h":m,"ty":"Skinned","joints":joints}));
+                c.s.write(origin, m, &v, &joints);
+                let d = c.drain(40);
+                c.s.trace.push(json!({"ev":"drain","quiescent":d.0,"rounds":d.1}));
+                let w = c.any_peer();
+                let n = c.rng.range(700, 1000);
+                c.s.trace.push(json!({"ev":"epoch","writer":w,"crowd":n}));
+                for k in 0..n {
+                    let h = c.fresh();
+                    c.s.spawn(w, h, true, &[CVal::new(Ty::E, k as i64)], None);
+                    if k % 50 == 49 {
+                        c.lockstep(1);
+                    }
+                }
+                let d = c.drain(300);
+                c.s.trace.push(json!({"ev":"drain","quiescent":d.0,"rounds":d.1}));
+            }
+            if !joints.is_empty() && (far || c.rng.chance(1, 2)) {
                 let w = c.any_peer();
                 for (k, j) in joints.clone().iter().enumerate() {
-                    let v = CVal::new(if c.rng.chance(1, 2) { Ty::A } else { Ty::Transform }, 50 + k as i64);
+                    let v = CVal::new(if far || c.rng.chance(1, 2) { Ty::A } else { Ty::Transform }, 50 + k as i64);
                     c.s.write(w, *j, &v, &[]);
                 }
                 let d = c.drain(60);
                 c.s.trace.push(json!({"ev":"drain","quiescent":d.0,"rounds":d.1}));
             }
             // a client that joins afterwards gets the SkinnedMesh through the snapshot
-            if c.rng.chance(2, 3) {
+            if far || c.rng.chance(2, 3) {
                 let shift = c.rng.below(5);
                 let id = c.s.add_client(cfg_for(family), shift);
                 c.nclients += 1;
                 c.s.connect(id);
-                let ok = c.wait_connected(id, 60);
+                let ok = c.wait_connected(id, if far { 300 } else { 60 });
                 c.s.trace.push(json!({"ev":"late_join","peer":id,"ok":ok}));
             }
         }
@@ -1526,6 +1596,12 @@ fn history(family: &str, seed: u64, idx: usize, thorough: bool, out: &mut impl W
                 // the hand-over, sometimes with the application still at work on some peer
                 let busy = c.rng.chance(1, 3);
                 let w = c.any_peer();
+                // ... and sometimes the host's application does something in the very frame in which it asks for the promotion:
+                // it is still the host of an ordinary session, and what it does reaches the promoted client over the old connection
+                if ok && c.rng.chance(1, 3) {
+                    c.s.trace.push(json!({"ev":"epoch","writer":host,"with_request":true}));
+                    op(&mut c, host);
+                }
                 for _ in 0..c.rng.range(20, 40) {
                     if busy && c.rng.chance(1, 4) {
                         op(&mut c, w);
@@ -1658,7 +1734,11 @@ fn history(family: &str, seed: u64, idx: usize, thorough: bool, out: &mut impl W
                         }
                     }
                     _ => {
-                        if assets.is_empty() || c.rng.chance(1, 2) {
+                        if c.rng.chance(1, 6) {
+                            // a uuid material nobody can encode (strong handle to a local image): every sender skips it
+                            let id = uuid::Uuid::from_bytes(c.rng.bytes(16).try_into().unwrap());
+                            c.s.asset_insert_unencodable_material(w, id);
+                        } else if assets.is_empty() || c.rng.chance(1, 2) {
                             let kind = *c.rng.pick(&AK);
                             let id = uuid::Uuid::from_bytes(c.rng.bytes(16).try_into().unwrap());
                             let n = c.rng.below(1000) as u64;
